@@ -10,6 +10,7 @@ import (
 	"strconv"
 	"strings"
 	"testing"
+	"time"
 
 	"github.com/ohler55/ojg"
 	"github.com/ohler55/ojg/alt"
@@ -354,6 +355,29 @@ func Run(cs Case, c *vrt.Ctx) {
 		} else {
 			v = rv.Interface()
 		}
+	}
+	// a field of a type that writes itself (time.Time is a json.Marshaler and a TextMarshaler): oj
+	// and sen hand it to the type, alt and pretty follow TimeFormat, and no document says which is
+	// meant - so only this is asked here: sen writes what oj writes, for the struct held by value
+	// (not addressable) as for a pointer to it. Every fourth case carries the comparison.
+	if cs.Opt.UseTags == cs.Opt.KeyExact {
+		st := tyx.Stamped{When: time.Date(2021, 3, 4, 5, 6, 7, 0, time.UTC), N: 1, Later: &tyx.Stamped{N: 2}}
+		for _, sv := range []any{st, &st, []any{st}, map[string]tyx.Stamped{"k": st}} {
+			for _, indent := range []int{0, 2} {
+				o := options(cs.Opt, indent)
+				var a, b string
+				if pv, stack := vrt.Catch(func() { a, b = oj.JSON(sv, o), sen.String(sv, o) }); pv != nil {
+					c.Fail("panic", "sen.String(self-writing field)", fmt.Sprintf("%v at %s", pv, stack))
+					continue
+				}
+				av, aerr := oj.ParseString(a)
+				bv, berr := sen.Parse([]byte(b))
+				if a == "" || b == "" || aerr != nil || berr != nil || !canon.Same(av, bv) {
+					c.Fail("self-writing-field-differs", "sen.String", fmt.Sprintf("%T indent %d: oj.JSON %q sen.String %q (%v %v)", sv, indent, a, b, aerr, berr))
+				}
+			}
+		}
+		c.Class("self-writing-field(oj vs sen)")
 	}
 	feats := map[string]bool{}
 	want := tyx.Encode(rv, cs.Opt, feats)
